@@ -4,9 +4,10 @@
    Part 1 (complete): presenceHub (presence_memory.go), for ANY sequence of add/remove calls.
    Part 2 (life cycle, Model/SubLifecycle.v): the full statement
      settled s -> (pres s c = true <-> subscribed to c with presence enabled)
-   is FALSE on the faithful model and on the implementation (C06_stale_presence_refuted,
-   reproduced by the driver's gated schedule 0); no positive life-cycle theorem is proved,
-   that part of the claim rests on the correspondence and the oracle only. *)
+   was false before fix f4ffc2fd (stale entry after a tick raced an unsubscribe and a failing
+   re-subscribe: C06_name_only_compensation_prefix_refuted; the driver's gated schedule 1 replays
+   it and is clean now).  No general positive life-cycle theorem is proved: that half rests on
+   the correspondence and the oracle; with the wait-gate timeout a leak remains (see C05). *)
 From Coq Require Import List NArith ZArith Bool.
 From Cfg Require Import Model.PresenceHub Proofs.PresenceHub Model.SubLifecycle Proofs.SubPresence.
 Import ListNotations.
@@ -28,14 +29,34 @@ Theorem C06_stats_count_distinct :
 Proof. exact pstats_spec. Qed.
 Print Assumptions C06_stats_count_distinct.
 
-(* A presence entry survives the end of the subscription: tick add after the unsubscribe's
-   removal + a fresh reservation hiding the race + the fresh attempt failing.  No timeout. *)
-Theorem C06_stale_presence_refuted :
+(* compensateRacedPresence (after fix f4ffc2fd): every presence entry the tick added for a
+   snapshot item whose channel is gone or now carries ANOTHER subscription generation is
+   removed again. *)
+Theorem C06_compensation_covers_stale_generation :
+  forall s l c g,
+    In (c, g) l ->
+    (lookup c (chans s) = None \/ exists x, lookup c (chans s) = Some x /\ c_gen x <> g) ->
+    In c (raced_items s l).
+Proof. exact compensation_covers. Qed.
+Print Assumptions C06_compensation_covers_stale_generation.
+
+(* The schedule that left a stale entry before the fix (tick add after the unsubscribe's
+   removal + fresh reservation + the fresh attempt failing) now ends clean ... *)
+Theorem C06_tick_vs_resubscribe_no_stale_entry :
   exists sched s,
-    exec sched init = Some s /\ no_timeout sched = true /\ all_finished s = true /\
-    is_subscribed s 0 = false /\ lookup 0 (chans s) = None /\ pres s 0 = true.
-Proof. exact stale_presence_refuted. Qed.
-Print Assumptions C06_stale_presence_refuted.
+    exec sched init = Some s /\ all_finished s = true /\
+    is_subscribed s 0 = false /\ lookup 0 (chans s) = None /\ pres s 0 = false.
+Proof. exact tick_vs_resub_no_stale. Qed.
+Print Assumptions C06_tick_vs_resubscribe_no_stale_entry.
+
+(* ... whereas the old rule (channel name only) compensates nothing in that state: the
+   pre-fix behaviour is refuted. *)
+Theorem C06_name_only_compensation_prefix_refuted :
+  exists sched s,
+    exec sched init = Some s /\ no_timeout sched = true /\ pres s 0 = true /\ is_subscribed s 0 = false /\
+    raced_items s (tick_added s 4) = [0] /\ raced_items_name_only s (tick_added s 4) = [].
+Proof. exact name_only_compensation_refuted. Qed.
+Print Assumptions C06_name_only_compensation_prefix_refuted.
 
 (* The documented transient: subscribed with presence but absent until the next tick. *)
 Theorem C06_transient_absence :
